@@ -427,7 +427,7 @@ func TestC20(t *testing.T) {
 		}
 	}
 	rec.Flush()
-	total := 160 / cfg.NShards
+	total := 1200 / cfg.NShards
 	ncli := 16 / cfg.NShards
 	if cfg.Thorough() {
 		total = 8000 / cfg.NShards
